@@ -7,7 +7,8 @@
                                   in the model and feasible for the harness (see notes/C15.md)
      consts                    -> "maxConnAttempts=<n> maxSendAttempts=<n>"
    script tokens: DR DS DB DH DC DE (dial outcomes) X (drop) T/t (Stop live/force)
-                  U<n>/u<n> (UpdateAddr live/force) F/G (SDK fails on/off) Q/q (TrySend; reader ok/rejects)
+                  U<n>/u<n> (UpdateAddr live/force) F/G (SDK fails on/off) Q/q/Qe/Qw/Qg/Ql (TrySend; a connected
+                  reader answers ok / error status / ERROR_MESSAGE / wrong type / undecodable / too late)
    log tokens:    d<a> hs fail norm rU+ rU- rD+ rD- stop a<n> s<calls>/<sendfor>/<class> *)
 open Model
 
@@ -26,11 +27,13 @@ let event_of_tok (t:string) : event =
   | "X" -> Drop | "T" -> Stop false | "t" -> Stop true
   | "F" -> SdkFail true | "G" -> SdkFail false
   | "Q" -> Send ReaderOk | "q" -> Send ReaderRejects
+  | "Qe" -> Send ReaderErrorMessage | "Qw" -> Send ReaderWrongType
+  | "Qg" -> Send ReaderGarbage | "Ql" -> Send ReaderLate
   | _ when t.[0] = 'U' -> UpdateAddr (num (), false)
   | _ when t.[0] = 'u' -> UpdateAddr (num (), true)
   | _ -> failwith ("bad token " ^ t)
 
-let class_s = function SOk -> "ok" | SStatus -> "status" | SCtx -> "ctx" | SClosed -> "closed" | SNoClient -> "noclient"
+let class_s = function SOk -> "ok" | SStatus -> "status" | SCtx -> "ctx" | SClosed -> "closed" | SNoClient -> "noclient" | SOther -> "other"
 let entry_s = function
   | LDial a -> "d" ^ string_of_int (int_of_n a)
   | LHandshake -> "hs" | LFail -> "fail" | LNormal -> "norm"
@@ -87,7 +90,7 @@ let run_script up0 toks =
 let gen seed count maxdials maxlen =
   Random.init seed;
   let dial_toks = [| "DR"; "DR"; "DS"; "DB"; "DH"; "DH"; "DC"; "DE"; "DE" |] in
-  let act_toks = [| "X"; "X"; "T"; "t"; "U1"; "U2"; "U0"; "u1"; "u2"; "F"; "G"; "Q"; "Q"; "q" |] in
+  let act_toks = [| "X"; "X"; "T"; "t"; "U1"; "U2"; "U0"; "u1"; "u2"; "F"; "G"; "Q"; "Q"; "q"; "Qe"; "Qw"; "Qg"; "Ql" |] in
   for _ = 1 to count do
     let up0 = Random.int 4 <> 0 in
     let s = ref (init up0 N0) in
